@@ -47,6 +47,13 @@ PROPS = {
         explanation="Theorems: by id / name / identifier / root membership / purl type return precisely the nodes meeting the criterion (identifier-type spellings from the generated tables); GetMatchingNode equals the documented rule on lists with unique identifiers, never returns a node outside the list (all lists), is sound, and is invariant under every permutation of the node list (unique identifiers; refuted with repeated identifiers = known finding K11). Tie: all six lookups observed on random lists vs Model/Match.v; matching repeated 20x and on shuffled lists.",
         assumptions=[GRAPH_NOTE, "strings.ToLower/TrimSpace are modelled for ASCII (generator uses ASCII spellings)", "Go map iteration order is abstracted: the model iterates in list order and the theorem proves the outcome independent of it"],
     ),
+    "C13": dict(
+        props_v="Props/C13.v",
+        corr_v=["Corr/CheckC13.v"],
+        n_quick=110, n_thorough=3000,
+        explanation="Theorems: Node/Edge/NodeList equality are equivalence relations; equality <-> checksum equality under injectivity of SHA-256 (premise); invariance under every permutation of set-valued attributes, edge targets, nodes, edges, roots (via: insertion sort is canonical on multisets, with transitivity of the byte order proved); every schema field contributes to the flat string; scalar attributes render injectively; external-reference hashes covered. The unrestricted 'equal only if every attribute equal' is refuted by vm_compute witnesses (K1 separator collisions, K6 shadowed duplicate) and kept visible. Tie: the model's flat strings are compared byte for byte with the implementation's (verif export) on random nodes/edges/persons/external references; oracle mutates one attribute at a time by reflection over the schema.",
+        assumptions=["modelled: flatString of Node/Edge/Person/ExternalReference, NodeList.Equal (Model/Flat.v); SHA-256 is a Section variable assumed injective where a theorem says so", "render-level injectivity for collection-valued attributes is NOT proved (false without separator-freeness: K1); covered by the single-attribute mutation oracle only"],
+    ),
 }
 
 NOT_APPLICABLE = {}
